@@ -72,8 +72,9 @@ func probes() pbt.Probes {
 	addS("C17-default-named-type-becomes-root-despite-schema-definition", sdlShadowRoot)
 	addS("C17-type-kind-wrong-when-directive-shares-name", sdlNameClash)
 	addQ("C17-alias-on-nested-introspection-field", sdlEnumDeprecated, `{ __type(name: "E") { k: kind name } }`, "")
-	addQ("C17-includeDeprecated-variable-ignored", sdlEnumDeprecated, `query Q($d: Boolean!) { __type(name: "E") { enumValues(includeDeprecated: $d) { name } } }`, `{"d":true}`)
+	addQ("C17-includeDeprecated-lost-when-operation-has-variables", sdlEnumDeprecated, `query Q($n: String!) { __type(name: $n) { enumValues(includeDeprecated: true) { name } } }`, `{"n":"E"}`)
+	addQ("C17-includeDeprecated-variable-default-ignored", sdlEnumDeprecated, `query Q($d: Boolean = true) { __type(name: "E") { enumValues(includeDeprecated: $d) { name } } }`, "")
 	addQ("C17-type-reference-not-expandable", sdlIfaceImplements, `{ __type(name: "Named") { interfaces { name fields { name } } } }`, "")
-	addQ("C17-root-typename-next-to-introspection-field", sdlEnumDeprecated, `{ __typename __schema { queryType { name } } }`, "")
+	addQ("C17-root-typename-before-introspection-field-with-renamed-query-type", "schema {\n  query: RootQ\n}\ntype RootQ {\n  ping: String\n}\n", `{ __typename __schema { queryType { name } } }`, "")
 	return p
 }
